@@ -1,43 +1,14 @@
 """C02 — sending queue: exactly-once hand-off, FIFO, bounded size, no lost wake-ups."""
-import json
 import os
 import vlib
 
 _HERE = os.path.dirname(os.path.abspath(__file__))
-_global_known = vlib.known_findings
-
-
-def _known_with_proposed(pid):
-    """known_findings.json is the integrator's file; until F3/S1 are merged there, the proposed
-    entries in props/C02/findings.json are used (an id already present globally wins)."""
-    res = list(_global_known(pid))
-    if pid != "C02":
-        return res
-    have = {f.get("id") for f in res}
-    try:
-        data = json.load(open(os.path.join(_HERE, "findings.json")))
-    except Exception:
-        return res
-    all_global = set()
-    try:
-        all_global = {f.get("id") for f in json.load(open(os.path.join(vlib.VERIF, "known_findings.json"))).get("findings", [])
-                      if f.get("property") == pid}
-    except Exception:
-        pass
-    for f in data.get("findings", []):
-        if f.get("property") == pid and f.get("status", "open") == "open" and f.get("id") not in have \
-                and f.get("id") not in all_global:
-            res.append(f)
-    return res
-
-
-vlib.known_findings = _known_with_proposed
 
 
 class P(vlib.Prop):
     pid = "C02"
     coq_dirs = ["Common", "C02", "Generated"]
-    coq_targets = ["C02/Properties.vo", "C02/Witness.vo", "C02/Harness.vo", "C02/PropCheck.vo", "C02/Repaired.vo"]
+    coq_targets = ["C02/Properties.vo", "C02/Witness.vo", "C02/Harness.vo", "C02/PropCheck.vo"]
     properties_module = "C02.Properties"
     properties_file = "C02/Properties.v"
     instance_obligations = []
@@ -50,11 +21,11 @@ class P(vlib.Prop):
     ]
     rule = ("Label sequences (atomic sections of the Go code) executed on the REAL memoryQueue / persistentQueue with "
             "real goroutines, one label at a time to a stable point, observing the Offer/Read/OnDone result class, "
-            "Size(), cond.waiting and len(cond.ch) after each; the Coq LTS must accept the same labels with the same "
+            "Size(), cond.waiting, len(cond.ch) and cond.signals after each; the Coq LTS must accept the same labels with the same "
             "observations. quick: 900 sequential scripts on the non-blocking configurations (both kinds), 500 scripts "
             "with block_on_overflow / wait_for_result (producers parked in cond.Wait, woken by OnDone/Read, cancelled), "
             "120 schedules forced by holding the queue mutex while OnDone calls and cancelled waiters line up on it "
-            "(F3 region, under deadlines). capacity 1..8, sizes from {0, 1..cap, cap, cap+1, 2cap, negative}, 10-60 "
+            "(the former F3 schedules: all must complete; a stale bell left behind is taken by a freshly parked producer). capacity 1..8, sizes from {0, 1..cap, cap, cap+1, 2cap, negative}, 10-60 "
             "operations + drain. thorough: 15x/10x. Direct oracle on the implementation: FIFO/exactly-once hand-off, "
             "refusal rule from the reported size, size bounds, exact size (in-memory), zero when all finished, no "
             "producer blocked on an empty queue, cancelled producer returns ctx error, wait-for-result own outcome. "
